@@ -55,6 +55,38 @@ func runC13(c *core.Ctx) {
 		c13Lookup(c, cfg, b, snap)
 		c13Sizes(c, cfg, b, snap)
 		c13Reference(c, cfg, b, snap, reg)
+		// the closure laws on plans that are no longer the default one: a custom channel whose
+		// data-rate range leaves a gap to the others, then with the default channels switched off
+		if reg.ExtraChannels {
+			top := -1
+			for dr, d := range snap.DataRates {
+				if d.Uplink && dr > top {
+					top = dr
+				}
+			}
+			if b2, err := cfg.New(); err == nil && top >= 0 {
+				b2.AddChannel(reg.Uplink[0].Freq+1800000, top, top)
+				c13Closure(c, cfg, b2, snap)
+				b2.AddChannel(reg.Uplink[0].Freq+2000000, 0, 0)
+				for i := range reg.Uplink {
+					b2.DisableUplinkChannelIndex(i)
+				}
+				c13Closure(c, cfg, b2, snap)
+			}
+		} else if b2, err := cfg.New(); err == nil {
+			for _, i := range b2.GetUplinkChannelIndices() {
+				if i%3 != 0 {
+					b2.DisableUplinkChannelIndex(i)
+				}
+			}
+			c13Closure(c, cfg, b2, snap)
+			for _, i := range b2.GetUplinkChannelIndices() {
+				if i < 64 {
+					b2.DisableUplinkChannelIndex(i)
+				}
+			}
+			c13Closure(c, cfg, b2, snap)
+		}
 	}
 }
 
@@ -100,6 +132,35 @@ func c13Closure(c *core.Ctx, cfg bandCfg, b band.Band, snap band.VerifSnapshot) 
 	chk("rx2-default", b.GetDefaults().RX2DataRate)
 	for _, dr := range b.GetEnabledUplinkDataRates() {
 		chk("enabled-uplink-data-rates", dr)
+	}
+	// ... and they lie between the two readings of "enabled": every data-rate of an enabled uplink
+	// channel is listed, and nothing is listed that no uplink channel of the plan supports
+	// (the library lists the data-rates of all channels of the plan, enabled or not)
+	mustDR, mayDR := map[int]bool{}, map[int]bool{}
+	for _, i := range b.GetUplinkChannelIndices() {
+		if ch, err := b.GetUplinkChannel(i); err == nil {
+			for dr := ch.MinDR; dr <= ch.MaxDR; dr++ {
+				mayDR[dr] = true
+			}
+		}
+	}
+	for _, i := range b.GetEnabledUplinkChannelIndices() {
+		if ch, err := b.GetUplinkChannel(i); err == nil {
+			for dr := ch.MinDR; dr <= ch.MaxDR; dr++ {
+				mustDR[dr] = true
+			}
+		}
+	}
+	gotDR := map[int]bool{}
+	for _, dr := range b.GetEnabledUplinkDataRates() {
+		gotDR[dr] = true
+	}
+	c.Eval(1)
+	for dr := -1; dr <= 16; dr++ {
+		if (gotDR[dr] && !mayDR[dr]) || (!gotDR[dr] && mustDR[dr]) {
+			c.Violate(fmt.Sprintf("C13|%s|enabled-uplink-data-rates|dr=%d|listed=%v", cfg.Name, dr, gotDR[dr]), "GetEnabledUplinkDataRates() = %v; DR%d: supported by an enabled uplink channel = %v, by any uplink channel = %v", b.GetEnabledUplinkDataRates(), dr, mustDR[dr], mayDR[dr])
+			break
+		}
 	}
 	// the snapshot and the public API agree on what is defined
 	for dr := -1; dr <= 16; dr++ {
